@@ -38,6 +38,8 @@ class FnContract:
     yields: dict[int, list[str]] = field(default_factory=dict)  # generator cut points
     ghost_post: list[str] = field(default_factory=list)
     gen: dict | None = None           # generator (coroutine) verification spec
+    monitor_only: bool = False         # no VCs are generated: the clauses are evaluated only by the run-time monitors (bounded)
+    exists_mem_patterns: bool = False  # any(... for x in seq) in this contract is instantiated on members of seq only
     default_reads: bool = False        # d[k] on a defaultdict inside this contract's specifications means d.get(k, 0)
     nl: str = "uf"                     # "native": products/quotients of symbols are interpreted (small arithmetic-only functions)
     native_ensures: list = field(default_factory=list)   # (label, expr) clauses only evaluated by the run-time monitors (bounded), never counted as proved
